@@ -7,6 +7,7 @@
 //   c10 replay <stream> <file>           prints the expect line for every case line of <file>
 #include "gtree.h"
 #include <geos_c.h>
+#include <geos/io/WKTWriter.h>
 #include <cstdarg>
 #include <clocale>
 #include <fstream>
@@ -205,6 +206,40 @@ static void applyCfg(GEOSWKTWriter* w, const WCfg& c, int mask) {
     if (mask & 8) GEOSWKTWriter_setOld3D_r(H, w, c.old3d);
 }
 
+// ---- the documented dimension dropping of the C++ writer (io::WKTWriter::setRemoveEmptyDimensions(true), output dimension 4): a dimension is
+// written iff SOME coordinate of the geometry has a non-NaN value in it.  Case = the tree; expect = the Z / M tag of the written text.
+static std::string nanOutOrdinate(const std::string& line, bool killZ, bool killM) {
+    std::istringstream is(line); std::vector<std::string> t; std::string w; while (is >> w) t.push_back(w);
+    for (size_t i = 0; i + 1 < t.size(); i++) {
+        const std::string& f = t[i]; if (f != "xyz" && f != "xym" && f != "xyzm") continue;
+        long n = 0; try { n = std::stol(t[i + 1]); } catch (...) { continue; }
+        int dim = (int) f.size(); bool hz = f.find('z') != std::string::npos;
+        for (long k = 0; k < n; k++) { size_t base = i + 2 + (size_t) k * (size_t) dim; if (base + (size_t) dim > t.size()) break;
+            if (hz && killZ) t[base + 2] = "7ff8000000000000";
+            if (f.find('m') != std::string::npos && killM) t[base + (hz ? 3 : 2)] = "7ff8000000000000"; }
+    }
+    std::string o; for (size_t i = 0; i < t.size(); i++) o += (i ? " " : "") + t[i]; return o;
+}
+static std::string redTag(const Geometry* g) {
+    geos::io::WKTWriter w; w.setOutputDimension(4); w.setRemoveEmptyDimensions(true); w.setTrim(true);
+    std::string s; try { s = w.write(g); } catch (std::exception& e) { return std::string("WRITE-ERR"); }
+    std::istringstream is(s); std::string type, tag; is >> type >> tag;
+    bool z = tag == "Z" || tag == "ZM", m = tag == "M" || tag == "ZM";
+    return std::string("z=") + (z ? "1" : "0") + " m=" + (m ? "1" : "0");
+}
+static void streamRed(Rng& r, long n, Out& out) {
+    for (long i = 0; i < n; i++) {
+        GenCfg cfg = genTreeCfg(r, out); cfg.mixedDims = r.chance(40);
+        GTreeGen gen(r, cfg, &out); std::string line = gen.geom();
+        bool kz = r.chance(35), km = r.chance(35); line = nanOutOrdinate(line, kz, km);
+        std::unique_ptr<Geometry> g; try { g = buildGeom(line, GF.get()); } catch (std::exception&) { out.count("gen_rejected_by_factory"); continue; }
+        line = dumpGeom(g.get());
+        std::string e = redTag(g.get());
+        out.count("red_" + e); if (kz) out.count("red_all_z_nan"); if (km) out.count("red_all_m_nan");
+        out.emit(line, e);
+    }
+}
+
 static void streamWriteSeq(Rng& r, long n, Out& out) {
     static const double SCALES[] = {0.001, 0.01, 0.1, 0.5, 1.0, 3.0, 10.0, 100.0, 1000.0, 1e6, 1e9, 123.456};
     for (long i = 0; i < n; i++) {
@@ -390,6 +425,7 @@ static std::string replayLine(const std::string& stream, const std::string& line
     try {
         if (stream == "fmt") { std::istringstream is(line); std::string b; int p, t; is >> b >> p >> t; return fmtExpect(frombits(std::stoull(b, nullptr, 16)), p, t); }
         if (stream == "wkt-read") return geosRead(line);
+        if (stream == "wkt-red") { std::unique_ptr<Geometry> g; try { g = buildGeom(line, GF.get()); } catch (std::exception&) { return std::string("bad-line"); } return redTag(g.get()); }
         if (stream == "wkt-write-seq") {
             // `<n> | <trim> <prec> <dim> <old3d> <msd> <scale bits, 0 = floating> <mask of settings re-set> <gtree> | …`
             std::vector<std::string> steps; size_t p0 = 0;
@@ -442,6 +478,7 @@ int main(int argc, char** argv) {
         if (stream == "fmt") streamFmt(r, n, out);
         else if (stream == "wkt-write") streamWrite(r, n, out);
         else if (stream == "wkt-write-seq") streamWriteSeq(r, n, out);
+        else if (stream == "wkt-red") streamRed(r, n, out);
         else if (stream == "wkt-read") streamRead(r, n, out);
         else if (stream == "wkt-rt") streamRt(r, n, out);
         else if (stream == "geojson") streamGeojson(r, n, out);
